@@ -1,23 +1,41 @@
 /*@UNIT
 {
-  "property": "C09",
-  "unit": "general_names",
-  "function": "parseGeneralNames",
-  "source": "crypto/keyformat/x509.c",
-  "keep_bodies": ["getAsnLength", "getAsnLength32", "x509FreeExtensions (called by the harness to free the result)"],
-  "replace": [],
-  "assumed": ["Strncpy (model: havocs dst[0..n) - the 16-byte display label `name` of an entry is not part of any clause; the bound n = sizeof(name)-1 is still checked against the object)"],
-  "mode": "bounded",
-  "bounds": "every GeneralNames content of N bytes or fewer inside an extension of N bytes or fewer, every content, every `limit` (N = 10 in both tiers: up to 3 entries; symbolic execution of the allocation-heavy loop grows steeply - 7 unwindings took 210 s of symex alone, 4 take 15 s); loops unwound to N+2 bytes / N/3+2 entries with unwinding assertions; malloc may fail at every call; over-reads decided by object bounds (buffer = tail of a static array)",
-  "defs_quick": ["BUFN=10"],
-  "defs_thorough": ["BUFN=10"],
-  "unwind": 12,
-  "unwindset": ["parseGeneralNames_wrapped_for_contract_checking.0:4", "parseGeneralNames_wrapped_for_contract_checking.1:11", "parseGeneralNames_wrapped_for_contract_checking.2:4", "x509FreeExtensions.0:5"],
-  "object_bits": 8,
-  "malloc_may_fail": true,
-  "leak_check": true,
-  "native_replay": true,
-  "timeout": 300
+ "property": "C09",
+ "unit": "general_names",
+ "function": "parseGeneralNames",
+ "source": "crypto/keyformat/x509.c",
+ "keep_bodies": [
+  "getAsnLength",
+  "getAsnLength32",
+  "x509FreeExtensions (called by the harness to free the result)"
+ ],
+ "replace": [],
+ "assumed": [
+  "Strncpy (model: havocs dst[0..n) - the 16-byte display label `name` of an entry is not part of any clause; the bound n = sizeof(name)-1 is still checked against the object)"
+ ],
+ "mode": "bounded",
+ "bounds": "every GeneralNames content of N bytes or fewer inside an extension of N bytes or fewer, every content, every `limit` (N = 10 in both tiers: up to 3 entries; symbolic execution of the allocation-heavy loop grows steeply - 7 unwindings took 210 s of symex alone, 4 take 15 s); loops unwound to N+2 bytes / N/3+2 entries with unwinding assertions; malloc may fail at every call; over-reads decided by object bounds (buffer = tail of a static array)",
+ "defs_quick": [
+  "BUFN=10"
+ ],
+ "defs_thorough": [
+  "BUFN=10"
+ ],
+ "unwind": 12,
+ "unwindset": [
+  "parseGeneralNames_wrapped_for_contract_checking.0:4",
+  "parseGeneralNames_wrapped_for_contract_checking.1:11",
+  "parseGeneralNames_wrapped_for_contract_checking.2:4",
+  "x509FreeExtensions.0:5"
+ ],
+ "object_bits": 8,
+ "malloc_may_fail": true,
+ "leak_check": true,
+ "native_replay": true,
+ "timeout": 300,
+ "properties": [
+  "C19"
+ ]
 }
 @*/
 /* C09.U / C05.U4   parseGeneralNames (subjectAltName, issuerAltName, name constraints ...).
